@@ -474,7 +474,7 @@ fn exec_inner(line: &str) -> String {
 /// Execute one op line; a panic of the implementation is a result (`PANIC`), not a crash.
 pub fn exec(line: &str) -> String {
     let l = line.to_string();
-    match std::panic::catch_unwind(move || exec_inner(&l)) {
+    match crate::util::quiet_catch(move || exec_inner(&l)) {
         Ok(s) => s,
         Err(_) => "PANIC".into(),
     }
